@@ -14,6 +14,7 @@ Oracle = the property itself on the real code.
 import sys
 from common import *
 import isa
+import c05_extra
 
 
 def main(tier):
@@ -30,6 +31,8 @@ def main(tier):
     for name in sorted(isas):
         I = isas[name]
         d = I.dis
+        pools = {}
+        hlog = []        # every call made on this ISA's disassembler object, in order: (mode, hex)
         for idx in range(I.nsets):
             I.set_mode(idx)
             label = "%s/%d" % (name, idx)
@@ -56,6 +59,8 @@ def main(tier):
                 if probe[:1] == other[:1]:
                     longer.setdefault(probe[:1], []).append(s_)
             for kind, bs in isa.gen_inputs(I, specs, r, ndir, nrand):
+                pools.setdefault(idx, []).append(bs)
+                hlog.append((idx, bs.hex()))
                 with isa.AttemptTrace() as tr0:
                     res = isa.real_decode(d, bs)
                 if res[0] != "ok":
@@ -91,6 +96,7 @@ def main(tier):
                             if v[:n] == bs[:n] or n == 1:
                                 variants.append(("tail", bs[:n] + v[n:]))
                 for vk, v in variants:
+                    hlog.append((idx, v.hex()))
                     with isa.AttemptTrace() as tr1:
                         res2 = isa.real_decode(d, v)
                     fp2 = isa.fingerprint(res2[1]) if res2[0] == "ok" else res2[1]
@@ -102,6 +108,12 @@ def main(tier):
                         break
                 if len(ck.cov["samples"]) < 5 and r.random() < 0.01:
                     ck.sample({"isa": label, "bytes": bs.hex(), "len": n, "mnemonic": i.mnemonic, "variants": [v.hex() for _, v in variants[:3]]})
+        # history / cross-mode pass: the pools of all modes through every mode in turn on the one long-lived
+        # disassembler object, against sibling continuations and a fresh object of the ISA (c05_extra.py)
+        c05_extra.history_pass(ck, I, name, pools, r, quick, prelog=hlog)
+    # the hook premise as a theorem for the LEB128 operand helpers of dwarf / wasm (Props/C05.lean, Leb128.Props05): tie + oracle
+    import leb_tie
+    leb_tie.run(ck, drv, tier)
     drv.close()
     for b in broken:
         ck.report("C05:proof-obligation", "proof obligation broken: %s" % b[:300], "proof-obligation", b[:2000], failing_input_found=False)
@@ -110,17 +122,25 @@ def main(tier):
         ck.report("C05:tie", "%d tie failures without a failing input (first: %s)" % (len(ties_broken), what), "checker", what, case=case,
                   real=real, model=mod, failing_input_found=False)
     ck.oblige("checkTree on real trees + spec sizes", not ties_broken)
-    ck.assumptions += ["hooks of variable-length specs are determined by the bytes they consume: validated per generated case, not proved (partial)"]
+    ck.assumptions += ["hooks of variable-length specs are determined by the bytes they consume: validated per generated case, not proved (partial); "
+                       "proved only for the LEB128 operand helper of the dwarf / wasm hooks (leb_operand_ignores_tail, leb_operand_truncation_rejected)"]
     ck.trusted += ["harness/isa.py", "compiled Lean checker"]
     return ck.finish("per ISA module and mode: spec-directed / prefixed / mutated / random inputs; for each decoded instruction: exact consumed bytes, "
-                     "consumed bytes + 4-6 replacement tails, maxlen window; non-trivial = decodes to an instruction")
+                     "consumed bytes + 4-6 replacement tails, maxlen window; then per ISA a history pass on the one long-lived disassembler object: "
+                     "pool inputs of every mode and 'consumed bytes of one input + continuation of another input (any mode)' decoded in every mode in turn "
+                     "(rotating mode order), each result compared with a fresh disassembler object of the ISA (history-free reference), with its exact "
+                     "consumed bytes, with consumed bytes + continuation bytes of sibling pool inputs, and with every shorter truncation that is an "
+                     "instruction by itself; non-trivial = decodes to an instruction")
 
 
 
 
 def replay(path):
     import json
-    return isa.replay_decode_case(json.load(open(path)))
+    rec = json.load(open(path))
+    if isinstance(rec.get("case"), dict) and "xhistory" in rec["case"]:
+        return c05_extra.replay_history(rec)
+    return isa.replay_decode_case(rec)
 
 if __name__ == "__main__":
     sys.exit(main(sys.argv[1] if len(sys.argv) > 1 else "quick"))
